@@ -242,6 +242,15 @@ OBLIGATIONS = {
         {"name": "no-std + serde", "cmd": NOSTD + ["--features", "serde"]},
         {"name": "no-std + unsafe", "cmd": NOSTD + ["--features", "unsafe,simd"]},
         {"name": "alloc only", "cmd": NOSTD + ["--features", "alloc,easy-functions"]},
+    ] + [
+        # every feature that does not imply std, alone, without std and alloc
+        {"name": "no-std + " + f, "cmd": NOSTD + ["--features", f]}
+        for f in ["easy-functions", "serde-buffered", "simd-per-arch", "opt-simd", "opt-simd-body-comparison", "opt-simd-bucket-aggregation",
+                  "opt-simd-parse-hex", "opt-simd-convert-hex", "opt-dist-length-table", "opt-dist-qratios-table", "opt-dist-qratios-table-double",
+                  "opt-pearson-table-double", "opt-low-memory-buckets", "opt-low-memory-hex-str-decode-half-table",
+                  "opt-low-memory-hex-str-decode-quarter-table", "opt-low-memory-hex-str-decode-min-table",
+                  "opt-low-memory-hex-str-encode-half-table", "opt-low-memory-hex-str-encode-min-table",
+                  "strict-parser,easy-functions,serde", "alloc,serde,strict-parser", "unsafe,easy-functions,opt-embedded-default"]
     ],
 }
 
